@@ -808,7 +808,13 @@ class Gen:
                 body.extend(self.plain_fun(ctx))
             else:
                 body.append(["expr", self.g_any(ctx, 1)])
-        body.append(["ret", self.g_any(ctx, 0)])
+        al = [a for a in ctx.aliases if a != "inputs"]
+        if aliasing and al:
+            # an alias registered before a function declaration and used after it
+            body.extend(self.plain_fun(ctx))
+            body.append(["ret", ["add", self.access(["id", rng.choice(al)], rng.choice(STRF)), self.g_str(ctx, 1)]])
+        else:
+            body.append(["ret", self.g_any(ctx, 0)])
         return {"f": "safe", "lib": lib, "parts": [["js", body]]}
 
     def fun_decl(self, ctx, d):
@@ -998,28 +1004,31 @@ class C31(Prop):
     CORR_MODULE = "JsDeps.Corr"
     LEVEL = "proof"
     LEVEL_TEXT = ("Theorems (Coq, closed under the global context) over a model of CWLDependencyListener/NamesStack/"
-                  "regex_eval and an instrumented big-step evaluator of an ES5 fragment; each says: for EVERY program of a "
-                  "syntactic fragment (boolean predicate in JsDeps/Model.v), EVERY inputs object and EVERY fuel, the analysis "
-                  "does not fail and a terminating evaluation reads only fields of the dependency set. "
-                  "C31_sound_partial: function-free bodies with tracked aliasing of inputs (identifier-to-identifier "
-                  "assignment, re-binding, +, ?:, if/else, return, member chains). C31_sound_functions_partial: "
-                  "expressionLib + body with top-level function declarations and calls (recursion allowed) in which no "
-                  "variable/parameter/return value is ever the inputs object and nothing is named inputs. "
-                  "C31_paramref_sound: parameter references. C31_sound_interpolation_partial: whole interpolated strings "
-                  "mixing text, references and JS parts of those fragments. C31_*_refuted: kernel-computed "
-                  "counterexamples showing the property text is FALSE of the analysis outside the fragments (computed "
-                  "access, nested-scope assignment: analysis raises; aliasing through var initialisers / chained "
-                  "assignment / parenthesised bases / function parameters / returns / closures / inner scopes, branch-"
-                  "insensitive alias deletion, reserved-word fields, quote stripping, index-first references: reads lost). "
-                  "The model is tied to /repo by running resolve_dependencies and the model listener on generated and on "
-                  "real-world expressions, and to JavaScript by comparing the model evaluator's read set with node's.")
-    LEVEL_NOTE = ("partial: nested or shadowing functions, function expressions, aliasing combined with functions, JS "
-                  "identifiers self/runtime and every construct outside the modelled ES5 subset (object/array literals, "
-                  "loops, other operators, method callbacks) are exercised by the correspondence/oracle only; of the "
-                  "expressions found in real .cwl files 16/20 (/repo) and 88/160 (cwltool, cwl_utils test data) lie in "
-                  "a proved fragment (see evidence sample realworld_expressions). Trusted: Coq kernel + vm_compute; the "
-                  "hand-written model JsDeps/Model.v; the harness' printer/mini-parser (AST <-> JS text) and the ANTLR "
-                  "parser are not modelled; node 20 and cwl_utils' scanner/regex_eval are reference oracles. No axioms.")
+                  "regex_eval and an instrumented big-step evaluator of an ES5 fragment (inputs, self, runtime bound); each "
+                  "says: for EVERY program of a syntactic fragment (boolean predicate in JsDeps/Model.v), EVERY inputs object "
+                  "and EVERY fuel, the analysis does not fail and a terminating evaluation reads only fields of the "
+                  "dependency set. C31_sound_combined_partial (in_fragmentC, a superset of the fragments of "
+                  "C31_sound_partial and C31_sound_functions_partial; its new part, C31_sound_alias_set, holds for every "
+                  "consistent set of alias-capable names): expressionLib + body where inputs may be aliased by "
+                  "identifier-to-identifier assignment in the outermost frame, with top-level function declarations and "
+                  "calls (recursion allowed) as long as no alias crosses a function boundary (not passed, returned, captured "
+                  "or created inside a function), plain variables / self / runtime unrestricted. C31_paramref_sound: "
+                  "parameter references. C31_sound_interpolation_partial: whole interpolated strings mixing text, "
+                  "references and JS parts of the combined fragment. C31_*_refuted: kernel-computed counterexamples showing "
+                  "the property text is FALSE of the analysis outside the fragments (computed access, nested-scope "
+                  "assignment: analysis raises; aliasing through var initialisers / chained assignment / parenthesised bases "
+                  "/ function parameters / returns / closures / aliases created inside functions, branch-insensitive alias "
+                  "deletion, reserved-word fields, quote stripping, index-first references: reads lost). The model is tied "
+                  "to /repo by running resolve_dependencies and the model listener on generated and on real-world "
+                  "expressions, and to JavaScript by comparing the model evaluator's read set with node's.")
+    LEVEL_NOTE = ("partial: nested or shadowing functions, function expressions, method calls, and every construct "
+                  "outside the modelled ES5 subset (object/array literals, comments, operators other than + and ?:, loops, "
+                  "null/throw) are exercised by the correspondence/oracle only; of the expressions found in real .cwl files "
+                  "16/20 (/repo) and 87/160 (cwltool, cwl_utils test data) lie in the proved fragment; the evidence sample "
+                  "realworld_expressions lists, per source, the syntactic feature keeping each remaining one out. Trusted: "
+                  "Coq kernel + vm_compute; the hand-written model JsDeps/Model.v; the harness' printer/mini-parser (AST <-> "
+                  "JS text) and the ANTLR parser are not modelled; node 20 and cwl_utils' scanner/regex_eval are reference "
+                  "oracles. No axioms.")
     TECHNIQUE = ("Coq proof (simulation invariant between the listener's name set and the evaluator's store, by induction "
                  "on evaluation fuel; induction over reference segments; kernel-computed counterexamples) + vm_compute "
                  "correspondence against resolve_dependencies and node")
